@@ -52,6 +52,24 @@ CLAIMED = {
             "coinbase), brother count/sorting/permutation, and 0/1 exactly on total/partial success.",
             "partial: RLP decode/encode and block-field removal are modelled and differentially checked, "
             "mm_hash_invariant is not yet proved; keccak/SHA-256 uninterpreted"),
+    "C09": ("Lean theorems: the version relation characterised for all naturals (same major, (minor, patch) "
+            "lexicographically not newer) and equal to the property's relation; constants 5.4.1 / two retries as "
+            "specified. The bring-up model (initialize_device, _handle_bootloader, PIN object, three platforms, "
+            "TCPServer.run's exception map) is tied to the real TCPServer.run by correspondence; the oracle "
+            "Spec.C09.c09 checks on the implementation's trace: unlock at most once, PIN only after answers that "
+            "establish onboarded/bootloader/supported UI/echo/>=2 retries, and served exactly when the simulated "
+            "device's actual state makes it safe (ground truth), over the full state product.",
+            "partial: unlock_at_most_once / unlock_only_if / serves_iff are decided by the exhaustive grid "
+            "(correspondence + oracle), the theorems cover the version relation and constants"),
+    "C10": ("Lean theorems about an explicit machine over (PIN file, device PIN, default) with faults and crash "
+            "points at every step boundary of the change protocol: the file changes only after the device's ack "
+            "and then holds that PIN; refused/failed/aborted changes leave everything untouched; the manager "
+            "carries on only when no change was needed; PIN policy; recoverability is preserved by every life "
+            "(and history, by induction) outside the ack-to-file window, and the counterexample inside it "
+            "(F-10a) is proved. The machine is tied to ledger/pin.py + ledger/protocol.py + both dongle classes "
+            "by running the real code in a forked child with os._exit / OSError injected at the same points, "
+            "exhaustively over the start-state x life product.",
+            "known findings F-10a-*; OS-level atomicity below open/write/close not modelled"),
     "C11": ("Lean theorems: transport classification; ensure_connection is a no-op without a pending repair; "
             "under the common handler guard a communication error yields the device-error code and raises the "
             "repair flag, a time-out yields the same code and leaves the flag; with a repair pending and a failing "
